@@ -649,6 +649,110 @@ pub fn run(ctx: &Ctx) -> i32 {
         total.extra.insert(format!("corpus_trees_n{n}"), json!(r.states));
         total.merge(r);
     }
+    // (2c) object insides, well-formed and ill-formed: every sequence of <= 3 members over 9
+    // member kinds x 5 tails. The grammar decides which ones are objects / comprehensions.
+    {
+        let kinds: Vec<(&str, &str)> = vec![
+            ("F", "a: 1"), ("H", "b:: 2"), ("C", "[k]: 1"), ("CP", "[k]+: 1"), ("CH", "[k]:: 1"), ("M", "m(x): x"), ("L", "local l = 1"), ("A", "assert true"), ("AM", "assert true : \"m\""),
+        ];
+        let tails: Vec<(&str, bool)> = vec![("", false), (",", false), (" for k in [\"a\"]", true), (", for k in [\"a\"] if true", true), (" for k in [\"a\"] for j in [k]", true)];
+        let mut cases: Vec<(String, bool)> = Vec::new();
+        for len in 1..=3usize {
+            util::for_each_seq(kinds.len(), len, |seq| {
+                for (tail, is_comp) in &tails {
+                    let members: Vec<&str> = seq.iter().map(|&i| kinds[i].1).collect();
+                    let src = format!("local k = \"n\"; {{ {}{} }}", members.join(", "), tail);
+                    let names: Vec<&str> = seq.iter().map(|&i| kinds[i].0).collect();
+                    let fields: Vec<&&str> = names.iter().filter(|n| !matches!(**n, "L" | "A" | "AM")).collect();
+                    let valid = if *is_comp {
+                        fields.len() == 1 && matches!(*fields[0], "C" | "CP") && names.iter().all(|n| matches!(*n, "C" | "CP" | "L"))
+                    } else {
+                        true
+                    };
+                    cases.push((src, valid));
+                }
+            });
+        }
+        let r = util::par_forked(&cfg, 16, |sh| {
+            let mut rep = Report::new();
+            for (i, (src, valid)) in cases.iter().enumerate() {
+                if !sh.mine(i as u64) {
+                    continue;
+                }
+                rep.evaluations += 1;
+                rep.states += 1;
+                rep.transitions += 1;
+                rep.traces_validated += 1;
+                let case = json!({"type":"parse","source":src});
+                match util::catch(|| impl_parse(src.as_bytes())) {
+                    Err(m) => rep.violation(format!("C15/panic/{}", util::panic_site(&m)), format!("`{src}`: parser panicked: {m}"), case),
+                    Ok(Parsed::Tree(..)) => {
+                        rep.outcome("object-inside:parses");
+                        if !*valid {
+                            rep.violation("C15/ill-formed-object-accepted", format!("`{src}` is not an object or object comprehension of the grammar but parses"), case);
+                        }
+                    }
+                    Ok(Parsed::ParseError { .. }) => {
+                        rep.outcome("object-inside:syntax-error");
+                        if *valid {
+                            rep.violation("C15/well-formed-object-rejected", format!("`{src}` is well formed but is rejected"), case);
+                        }
+                    }
+                    Ok(Parsed::LexError) => rep.violation("C15/print-not-lexable", format!("`{src}` does not lex"), case),
+                }
+                rep.distinct(&(src.matches(',').count(), *valid));
+            }
+            rep
+        });
+        total.extra.insert("object_inside_forms".into(), json!(cases.len()));
+        total.merge(r);
+    }
+    // (2d) the slice colon layouts as concrete text (the printer only emits 6 of them)
+    {
+        let mut rep = Report::new();
+        for start in [None, Some("b")] {
+            for end in [None, Some("c")] {
+                for tail in [None, Some(None), Some(Some("t"))] {
+                    // text variants: tight (`::` may lex as one token) and spaced
+                    for spaced in [false, true] {
+                        let sep = if spaced { " : " } else { ":" };
+                        let mut t = String::from("x[");
+                        t.push_str(start.unwrap_or(""));
+                        t.push_str(sep);
+                        t.push_str(end.unwrap_or(""));
+                        if let Some(step) = tail {
+                            t.push_str(sep);
+                            t.push_str(step.unwrap_or(""));
+                        }
+                        t.push(']');
+                        let want = E::Slice(b(var("x")), start.map(|v| b(var(v))), end.map(|v| b(var(v))), tail.flatten().map(|v| b(var(v))));
+                        rep.evaluations += 1;
+                        rep.states += 1;
+                        rep.traces_validated += 1;
+                        let case = json!({"type":"parse","source":t});
+                        match util::catch(|| impl_parse(t.as_bytes())) {
+                            Ok(Parsed::Tree(got, _)) => {
+                                rep.outcome("slice-layout:parses");
+                                if strip_parens(&got) != want {
+                                    rep.violation("C15/slice-layout/wrong-tree", format!("`{t}` parses as {}, expected {}", syntax::print(&got, syntax::FULL), syntax::print(&want, syntax::FULL)), case);
+                                }
+                            }
+                            Ok(_) => rep.violation("C15/slice-layout/rejected", format!("`{t}` is one of the 12 slice layouts but is rejected"), case),
+                            Err(m) => rep.violation(format!("C15/panic/{}", util::panic_site(&m)), format!("`{t}`: {m}"), case),
+                        }
+                    }
+                }
+            }
+        }
+        // embedded in larger expressions
+        for t in ["x[b:c:].f", "x[::][:1:]", "[x[b:c:], x[:c:]]", "x[b::t] + x[:: t]", "{a: x[b:c:]}"] {
+            if !matches!(util::catch(|| impl_parse(t.as_bytes())), Ok(Parsed::Tree(..))) {
+                rep.violation("C15/slice-layout/rejected", format!("`{t}` is rejected"), json!({"type":"parse","source":t}));
+            }
+            rep.evaluations += 1;
+        }
+        total.merge(rep);
+    }
     // (3) syntax errors point at a token
     let tl = if ctx.quick() { 3 } else { 4 };
     for len in 1..=tl {
